@@ -752,6 +752,12 @@ func (r *multiCIDRRangeAllocator) updateCIDRsAllocation(logger klog.Logger, data
 		node, err := r.nodeLister.Get(data.nodeName)
 		if err != nil {
 			logger.Error(err, "Failed while getting node for updating Node.Spec.PodCIDRs", "node", klog.KRef("", data.nodeName))
+			// Nothing is going to be written: give the reserved CIDRs back.
+			for _, cidr := range data.allocatedCIDRs {
+				if relErr := r.Release(logger, data.clusterCIDR, cidr); relErr != nil {
+					logger.Error(relErr, "Failed to release cidr", "cidr", cidr, "clusterCIDR", data.clusterCIDR.Name)
+				}
+			}
 			return err
 		}
 
